@@ -69,12 +69,12 @@ class DiscreteTimeInterpreter(TimeInterpreter):
         self.__sampling_violation_counter = sampling_violation_counter
 
     def set_sampling_period(self, sampling_period=int(1), unit='s', tolerance=float(0.1)):
-        self.sampling_period = sampling_period
-        self.sampling_period_unit = unit
-
+        # a refused call leaves the configuration as it was
         if tolerance < 0.0 or tolerance > 1.0:
             raise Exception('Tolerance must be in [0,1]')
 
+        self.sampling_period = sampling_period
+        self.sampling_period_unit = unit
         self.sampling_tolerance = tolerance
 
     def get_sampling_period(self):
